@@ -4,7 +4,7 @@
 set -e
 here=$(cd "$(dirname "$0")" && pwd)
 n=$1
-rule=$(echo "$n" | sed 's/^[AB][0-9]*_\(R[0-9]*\)_.*/\1/')
+rule=$(echo "$n" | sed "s/^[ABC][0-9]*_\\(R[0-9]*\\)_.*/\\1/")
 tmp=$(mktemp -d /tmp/rsx_dbg_XXXX)
 trap 'rm -rf "$tmp"' EXIT
 cp -r "${RSOME_REPO:-/repo}/rsome" "$tmp/rsome"
